@@ -430,6 +430,60 @@ func faultOps() []*faultOp {
 
 				return r.Result, nil
 			}, next: ncNextGet, nextWant: "own-reply"},
+		{name: "nc.unlock.10", build: buildNetconf("1.0", true),
+			run: func(s *sess, _ []util.Option, _ time.Duration) (string, error) {
+				r, err := s.nc.Unlock("candidate")
+				if err != nil {
+					return "", err
+				}
+
+				return r.Result, nil
+			}, next: ncNextGet, nextWant: "own-reply"},
+		{name: "nc.validate.11", build: buildNetconf("1.1", true),
+			run: func(s *sess, _ []util.Option, _ time.Duration) (string, error) {
+				r, err := s.nc.Validate("candidate")
+				if err != nil {
+					return "", err
+				}
+
+				return r.Result, nil
+			}, next: ncNextGet, nextWant: "own-reply"},
+		{name: "nc.discard.10", build: buildNetconf("1.0", true),
+			run: func(s *sess, _ []util.Option, _ time.Duration) (string, error) {
+				r, err := s.nc.Discard()
+				if err != nil {
+					return "", err
+				}
+
+				return r.Result, nil
+			}, next: ncNextGet, nextWant: "own-reply"},
+		{name: "nc.copyconfig.11", build: buildNetconf("1.1", true),
+			run: func(s *sess, _ []util.Option, _ time.Duration) (string, error) {
+				r, err := s.nc.CopyConfig("running", "startup")
+				if err != nil {
+					return "", err
+				}
+
+				return r.Result, nil
+			}, next: ncNextGet, nextWant: "own-reply"},
+		{name: "nc.deleteconfig.10", build: buildNetconf("1.0", true),
+			run: func(s *sess, _ []util.Option, _ time.Duration) (string, error) {
+				r, err := s.nc.DeleteConfig("startup")
+				if err != nil {
+					return "", err
+				}
+
+				return r.Result, nil
+			}, next: ncNextGet, nextWant: "own-reply"},
+		{name: "nc.getconfig.11", build: buildNetconf("1.1", true),
+			run: func(s *sess, _ []util.Option, _ time.Duration) (string, error) {
+				r, err := s.nc.GetConfig("running")
+				if err != nil {
+					return "", err
+				}
+
+				return r.Result, nil
+			}, next: ncNextGet, nextWant: "own-reply"},
 		{name: "nc.commit.11", build: buildNetconf("1.1", true),
 			run: func(s *sess, _ []util.Option, _ time.Duration) (string, error) {
 				r, err := s.nc.Commit()
